@@ -212,12 +212,16 @@ fn run_schedule(sh: &Arc<Shared>, prog: &[Vec<Value>], prefix: &[usize]) -> (Val
 }
 
 /// every interleaving of the gates of `prog` (DFS over the decision points)
+/// composite programs (C03): the quiescent state must be well formed; no claim that a several-guard call is atomic
+static WF_ONLY: AtomicBool = AtomicBool::new(false);
+
 fn explore(sh: &Arc<Shared>, prog: &[Vec<Value>], out: &mut Out, prog_id: u64, pr: &Progress, cap: usize) -> usize {
     let mut count = 0;
     let mut stack: Vec<Vec<usize>> = vec![vec![]];
     while let Some(prefix) = stack.pop() {
         pr.mark(prog_id, &format!("prog#{} prefix={:?} {}", prog_id, prefix, to_ascii_json(&json!(prog))));
-        let (rec, choices) = run_schedule(sh, prog, &prefix);
+        let (mut rec, choices) = run_schedule(sh, prog, &prefix);
+        rec["judge"] = json!(if WF_ONLY.load(Ordering::SeqCst) { "wf" } else { "lin" });
         let sched: Vec<usize> = rec["sched"].as_array().unwrap().iter().map(|x| x.as_u64().unwrap() as usize - 1).collect();
         out.rec(&rec);
         count += 1;
@@ -344,6 +348,46 @@ fn main() {
             let spec: Vec<Vec<usize>> = serde_json::from_str(&arg_or("prog", "[[0],[1]]")).expect("--prog JSON");
             let prog: Vec<Vec<Value>> = spec.iter().map(|t| t.iter().map(|&i| alpha[i].clone()).collect()).collect();
             total += explore(&sh, &prog, &mut out, 1, &pr, arg_u64("cap", 20000) as usize);
+        },
+        "composite" => {
+            // a call that takes several guards by design (recursive chmod / chown) against every single-step mutator (and pairs of
+            // them) on another thread: every interleaving; judged for deadlock / nesting / poison / panic and the well-formedness of
+            // the representation at the quiescent end
+            WF_ONLY.store(true, Ordering::SeqCst);
+            let comps = vec![
+                call_b("chmod_b", "/a", "", 0o755, 0, "", "a"),
+                call_b("chmod_b", "/", "", 0o700, 0, "", "d"),
+                call_b("chmod_b", "/", "", 0, 0, "a:go-rwx", "s"),
+                call_b("chown_b", "/a", "", 5, 7, "", "ug"),
+                call_b("chown_b", "/", "", 5, 7, "", "ug"),
+                call_b("copy_b", "/a", "/c2", 0o700, 0, "", "d"),
+            ];
+            let writers: Vec<Value> = alpha[..nsingle]
+                .iter()
+                .filter(|c| !["read_all", "exists", "is_file", "cwd", "mode", "readlink_abs", "paths", "all_paths", "files"].contains(&c["op"].as_str().unwrap()))
+                .cloned()
+                .collect();
+            let cap = arg_u64("cap", 400) as usize;
+            for c in &comps {
+                for m in &writers {
+                    pid += 1;
+                    if (pid - 1) % workers != worker {
+                        continue;
+                    }
+                    total += explore(&sh, &[vec![c.clone()], vec![m.clone()]], &mut out, pid, &pr, cap);
+                }
+            }
+            let n = arg_u64("n", 40);
+            for k in 0..n {
+                let c = comps[rng.gen_range(0..comps.len())].clone();
+                let m1 = writers[rng.gen_range(0..writers.len())].clone();
+                let m2 = writers[rng.gen_range(0..writers.len())].clone();
+                pid += 1;
+                if k % workers != worker {
+                    continue;
+                }
+                total += explore(&sh, &[vec![c], vec![m1, m2]], &mut out, pid, &pr, cap);
+            }
         },
         "stress" => {
             // free running threads; every critical section stamped under the lock; one record for the whole run
